@@ -250,7 +250,9 @@ func checkC06(c *Check) {
 	// what is sent and stored is exactly what was drawn: no flow from a previously issued (and disclosed) value
 	m := getHModel(P)
 	if requireModel(c, "C06.R3", m, "redirect.gens", "redirect.setstate", "redirect.query", "redirect.cookie") {
-		is := func(v ssa.Value, call *ssa.Call) bool { return v != nil && call != nil && resolveCell(stripConv(v)) == ssa.Value(call) }
+		is := func(v ssa.Value, call *ssa.Call) bool {
+			return v != nil && call != nil && resolveCell(stripConv(v)) == ssa.Value(call)
+		}
 		single := func(vs []ssa.Value) ssa.Value {
 			if len(vs) == 1 {
 				return vs[0]
